@@ -210,6 +210,13 @@ theorem PSOk.tail {x : PSlot} {l : List PSlot} {d : Int} (h : PSOk (x :: l) d) :
   ⟨(List.pairwise_cons.mp h.sorted).2, fun a ha => h.nonneg a (List.mem_cons_of_mem _ ha),
    fun a ha => h.durEq a (List.mem_cons_of_mem _ ha), fun a ha => h.bound a (List.mem_cons_of_mem _ ha)⟩
 
+/-- The pulse instruction number `i` of channel `c` is `s`, holding pulse `p`. -/
+abbrev IsPulseSlot (c : ChanState) (i : Nat) (s : Slot) (p : PulseRec) : Prop :=
+  c.slots[i]? = some s ∧ s.kind = .pulse p
+
+theorem IsPulseSlot.mem {c : ChanState} {i : Nat} {s : Slot} {p : PulseRec} (h : IsPulseSlot c i s p) :
+    (⟨i, s, p⟩ : PSlot) ∈ c.pulseSlots := mem_pulseSlots.mpr h
+
 /-! ### Amplitude / detuning: at most one term -/
 
 theorem contribAt_none {l : List PSlot} {t : Int}
